@@ -78,6 +78,10 @@ class Ctx:
     # ------------------------------------------------------------------ reporting
     def replay_dir(self):
         self._replay_n += 1
+        if self._replay_n == 1:
+            # replays of an earlier run with the same tier and seed would otherwise linger next to the new ones
+            for old in (VERIF / "replays" / self.pid).glob(f"{self.tier}-{self.seed}-*"):
+                shutil.rmtree(old, ignore_errors=True)
         d = VERIF / "replays" / self.pid / f"{self.tier}-{self.seed}-{self._replay_n}"
         if d.exists():
             shutil.rmtree(d)
